@@ -51,9 +51,10 @@ Definition item_ok (d : decl) (it : item) : Prop :=
   match it with
   | IChan c v => d_fl d <> FGlobal /\ chan_ok d (c, v)
   | INet n nv chans =>
-      d_fl d = FChannel /\ vstr n = true /\ netname n
+      (d_fl d = FChannel \/ (d_fl d = FNetwork /\ chans = []))   (* a network variable has no network+channel values *)
+      /\ vstr n = true /\ netname n
       /\ match nv with Some x => rt d x | None => True end
-      /\ chans <> []                                        (* THE DOMAIN *)
+      /\ (nv <> None \/ chans <> [])                        (* neither a value nor a channel value: not a setting *)
       /\ Forall (chan_ok d) chans
   end.
 Definition items_ok (d : decl) (b : pv) (items : list item) : Prop :=
@@ -61,17 +62,22 @@ Definition items_ok (d : decl) (b : pv) (items : list item) : Prop :=
   /\ Forall (item_ok d) items
   /\ pdistinct (map fst (flat_map (item_nodes b) items)).
 
-(* the flavour condition in the form "global: nothing specific; network: channels only" *)
+(* the flavour condition in the form "global: nothing specific; network: channel values and
+   network values, no network+channel values" *)
 Lemma items_ok_flavor d b items : items_ok d b items ->
   (d_fl d = FGlobal -> items = []) /\
-  (d_fl d = FNetwork -> Forall (fun it => exists c v, it = IChan c v) items).
+  (d_fl d = FNetwork ->
+   Forall (fun it => (exists c v, it = IChan c v) \/ (exists n nv, it = INet n nv [])) items).
 Proof.
   intros (_ & _ & _ & H & _). split; intro E.
   - destruct items as [|it items]; [reflexivity|]. inversion H as [|? ? Hi _]. subst.
-    destruct it; cbn [item_ok] in Hi; destruct Hi as [Hi _]; congruence.
+    destruct it; cbn [item_ok] in Hi; destruct Hi as [Hi _].
+    + congruence.
+    + destruct Hi as [Hi|[Hi _]]; congruence.
   - induction H as [|it items Hi _ IH]; constructor; [|exact IH].
-    destruct it as [c v|n nv chans]; [exists c, v; reflexivity|].
-    cbn [item_ok] in Hi. destruct Hi as [Hi _]. congruence.
+    destruct it as [c v|n nv chans]; [left; exists c, v; reflexivity|].
+    cbn [item_ok] in Hi. destruct Hi as [[Hi|[_ Hi]] _]; [congruence|].
+    subst chans. right. exists n, nv. reflexivity.
 Qed.
 
 (* (F1) the scan of d ignores the lines of the other variables *)
@@ -156,13 +162,18 @@ Lemma scan_chan fl g c :
   fl <> FGlobal -> vstr c = true -> is_channel c = true -> scan_key fl g (g ++ DOT :: escape c) = Ok [[c]].
 Proof.
   intros Hf Hv Hc. destruct fl; [congruence| |]; unfold scan_key;
-    rewrite match_key_ext, (split_one c Hv); cbn [bind]; rewrite Hc; reflexivity.
+    rewrite match_key_ext, (split_one c Hv); cbn [bind].
+  - rewrite (is_channel_nonempty c Hc), Hc, orb_true_r. reflexivity.
+  - destruct (nonempty c && startswith [COLON] c); [reflexivity|]. rewrite Hc. reflexivity.
 Qed.
-Lemma scan_net g n :
-  vstr n = true -> netname n -> scan_key FChannel g (g ++ DOT :: escape n) = Ok [].
+(* the network value alone (the repaired defect: it used to instantiate nothing) *)
+Lemma scan_net fl g n :
+  fl <> FGlobal -> vstr n = true -> netname n -> scan_key fl g (g ++ DOT :: escape n) = Ok [[n]].
 Proof.
-  intros Hv Hn. unfold scan_key. rewrite match_key_ext, (split_one n Hv). cbn [bind].
-  rewrite (netname_not_channel n Hn). reflexivity.
+  intros Hf Hv Hn. unfold netname in Hn. destruct fl; [congruence| |]; unfold scan_key;
+    rewrite match_key_ext, (split_one n Hv); cbn [bind].
+  - apply andb_true_iff in Hn. destruct Hn as [H1 H2]. rewrite H1, H2. reflexivity.
+  - rewrite Hn. reflexivity.
 Qed.
 Lemma scan_netchan g n c :
   vstr n = true -> netname n -> vstr c = true -> is_channel c = true ->
@@ -270,22 +281,22 @@ Proof.
 Qed.
 
 (* the network+channel keys of one network whose node exists *)
-Lemma net_chans n : d_fl d = FChannel -> vstr n = true -> netname n ->
-  forall chans pre x0 fl,
+Lemma net_chans n : vstr n = true -> netname n ->
+  forall chans, chans = [] \/ d_fl d = FChannel -> forall pre x0 fl,
   node_get [n] pre = Some (x0, fl) -> rt d x0 -> Forall (chan_ok d) chans ->
   (forall cv, In cv chans -> cache_get (nm d [n; fst cv]) C = Some (str_of (d_kind d) (snd cv))) ->
   pdistinct (map fst pre ++ map (fun cv : str * pv => [n; fst cv]) chans) ->
   scan_keys d C (map (fun cv : str * pv => nm d [n; fst cv]) chans) (mkvs b pre)
   = Ok (mkvs b (pre ++ map (fun cv : str * pv => ([n; fst cv], (snd cv, true))) chans)).
 Proof.
-  intros Hfl Hvn Hn. induction chans as [|[c v] chans IH]; intros pre x0 fl Hg Hx Hok Hlk Hpd.
+  intros Hvn Hn. induction chans as [|[c v] chans IH]; intros Hflc pre x0 fl Hg Hx Hok Hlk Hpd.
   - cbn [map scan_keys]. rewrite app_nil_r. reflexivity.
-  - inversion Hok as [|? ? Hcv Hok']. subst. destruct Hcv as (Hvc & Hc & Hv). cbn [fst snd] in Hvc, Hc, Hv.
+  - destruct Hflc as [Hflc|Hfl]; [discriminate|]. inversion Hok as [|? ? Hcv Hok']. subst. destruct Hcv as (Hvc & Hc & Hv). cbn [fst snd] in Hvc, Hc, Hv.
     cbn [map scan_keys fst snd]. rewrite Hfl, (nm_two d n c Hns), (scan_netchan _ n c Hvn Hn Hvc Hc).
     cbn [bind ensure_all]. rewrite (ensure_old pre [n] _ Hg). cbn [bind].
     cbn [map] in Hpd. cbn [fst] in Hpd.
     rewrite (ensure_set pre [n; c] x0 v).
-    + cbn [bind]. rewrite (IH _ x0 fl).
+    + cbn [bind]. rewrite (IH (or_intror Hfl) _ x0 fl).
       * rewrite <- app_assoc. reflexivity.
       * rewrite node_get_app, Hg. reflexivity.
       * exact Hx.
@@ -344,15 +355,10 @@ Proof.
         + exact Hb.
         + apply Hl. left. reflexivity.
         + exact Hv.
-      - destruct Hi as (Hfl & Hvn & Hn & Hnv & Hne & Hch). destruct Hl as [Hl Hl0].
-        cbn [item_lines item_nodes] in *. rewrite map_app, scan_keys_app.
-        assert (E0 : scan_keys d C (map fst match nv with
-                                            | Some x => [(nm d [n], str_of (d_kind d) x)]
-                                            | None => []
-                                            end) (mkvs b pre) = Ok (mkvs b pre)).
-        { destruct nv as [x|]; [|reflexivity]. cbn [map fst scan_keys].
-          rewrite Hfl, (nm_one d n Hns), (scan_net _ n Hvn Hn). reflexivity. }
-        rewrite E0. cbn [bind]. rewrite map_map. cbn [fst].
+      - destruct Hi as (Hfl & Hvn & Hn & Hnv & Hdom & Hch). destruct Hl as [Hl Hl0].
+        assert (Hfl0 : d_fl d <> FGlobal) by (destruct Hfl as [Hfl|[Hfl _]]; rewrite Hfl; discriminate).
+        assert (Hflc : chans = [] \/ d_fl d = FChannel) by (destruct Hfl as [Hfl|[_ Hfl]]; [right|left]; exact Hfl).
+        cbn [item_lines item_nodes] in *. rewrite map_app, map_map. cbn [fst].
         cbn [map fst] in Hpd. rewrite map_map in Hpd. cbn [fst] in Hpd.
         set (nval := match nv with Some x => (x, true) | None => (b, false) end) in *.
         assert (Hg : node_get [n] pre = None).
@@ -362,8 +368,22 @@ Proof.
           - apply (ensure_set pre [n] b x); [exact Hg|reflexivity|exact Hb| |exact Hnv].
             apply Hl. apply in_or_app. left. left. reflexivity.
           - apply (ensure_unset pre [n] b); [exact Hg|reflexivity|exact Hb|exact Hl0]. }
-        rewrite (net_first n chans pre nval Hfl Hvn Hn Hne Hch Hg He).
-        rewrite (net_chans n Hfl Hvn Hn chans (pre ++ [([n], nval)]) (fst nval) (snd nval)).
+        (* a set network: its own key, first, creates the node; an unset one: its first channel key *)
+        assert (E1 : scan_keys d C
+                       (map fst match nv with
+                                | Some x => [(nm d [n], str_of (d_kind d) x)]
+                                | None => []
+                                end ++ map (fun cv : str * pv => nm d [n; fst cv]) chans) (mkvs b pre)
+                     = scan_keys d C (map (fun cv : str * pv => nm d [n; fst cv]) chans)
+                         (mkvs b (pre ++ [([n], nval)]))).
+        { destruct nv as [x|].
+          - cbn [map fst app scan_keys]. rewrite (nm_one d n Hns), (scan_net _ _ n Hfl0 Hvn Hn).
+            cbn [bind ensure_all]. rewrite He. reflexivity.
+          - cbn [map app]. destruct Hdom as [Hdom|Hne]; [congruence|].
+            destruct Hflc as [Hc|Hfc]; [congruence|].
+            exact (net_first n chans pre nval Hfc Hvn Hn Hne Hch Hg He). }
+        etransitivity; [exact E1|].
+        rewrite (net_chans n Hvn Hn chans Hflc (pre ++ [([n], nval)]) (fst nval) (snd nval)).
         + rewrite <- app_assoc. reflexivity.
         + rewrite node_get_app, Hg. cbn [node_get]. rewrite path_eqb_refl. destruct nval; reflexivity.
         + subst nval. destruct nv; [exact Hnv|exact Hb].
@@ -490,15 +510,12 @@ Example ex_save :
   save_var ex_d (var_state (PS [122]) ex_items) = var_lines ex_d (PS [122]) ex_items.
 Proof. vm_compute. reflexivity. Qed.
 
-(* outside the domain: a network value without channel values below it is dropped by load + save *)
+(* a network value without channel values below it (it used to be dropped by load + save) *)
 Definition ex_netonly : list item := [INet [58; 110] (Some (PS [120])) []].
-Example ex_netonly_dropped :
-  match load_var ex_d (var_lines ex_d (PS [122]) ex_netonly) with
-  | Ok st => save_var ex_d st <> var_lines ex_d (PS [122]) ex_netonly
-             /\ save_var ex_d st = [(gname_of ex_d, str_of KString (PS [122]))]
-  | Raise _ => False
-  end.
-Proof. vm_compute. split; [discriminate|reflexivity]. Qed.
+Example ex_netonly_kept :
+  load_var ex_d (var_lines ex_d (PS [122]) ex_netonly) = Ok (var_state (PS [122]) ex_netonly) /\
+  save_var ex_d (var_state (PS [122]) ex_netonly) = var_lines ex_d (PS [122]) ex_netonly.
+Proof. vm_compute. split; reflexivity. Qed.
 
 (* ------------------------------------------------------------------ *)
 (* where the hypotheses come from: keys pairwise different after lower() *)
@@ -572,8 +589,8 @@ Proof.
   unfold items_ok. split; [discriminate|]. split; [repeat constructor|]. split; [apply R; reflexivity|]. split.
   - unfold ex_items. constructor; [|constructor; [|constructor]].
     + split; [discriminate|]. split; [reflexivity|]. split; [vm_compute; reflexivity|]. apply R. reflexivity.
-    + split; [reflexivity|]. split; [reflexivity|]. split; [vm_compute; reflexivity|]. split; [exact Logic.I|].
-      split; [discriminate|]. constructor; [|constructor].
+    + split; [left; reflexivity|]. split; [reflexivity|]. split; [vm_compute; reflexivity|]. split; [exact Logic.I|].
+      split; [right; discriminate|]. constructor; [|constructor].
       split; [reflexivity|]. split; [vm_compute; reflexivity|]. apply R. reflexivity.
   - vm_compute. repeat split; intros q Hq; repeat (destruct Hq as [Hq|Hq]; [subst q; reflexivity|]); destruct Hq.
 Qed.
@@ -610,4 +627,35 @@ Example ex_session :
 Proof.
   apply (session_idempotent [(ex_d, PS [122], ex_items)]).
   apply file_ok_single; [exact ex_items_ok|exact ex_unambiguous].
+Qed.
+
+(* a network-flavoured variable: a channel value and a network value *)
+Definition ex_dn : decl := mkdecl [[118]; [82; 101]] FNetwork KString (PS []).
+Definition ex_nitems : list item := [IChan [35; 97] (PS [120]); INet [58; 110] (Some (PS [121])) []].
+
+Example ex_nitems_ok : items_ok ex_dn (PS [122]) ex_nitems.
+Proof.
+  assert (R : forall v, vstr v = true -> rt ex_dn (PS v)) by (intros v Hv; apply rt_string; [reflexivity|exact Hv]).
+  unfold items_ok. split; [discriminate|]. split; [repeat constructor|]. split; [apply R; reflexivity|]. split.
+  - unfold ex_nitems. constructor; [|constructor; [|constructor]].
+    + split; [discriminate|]. split; [reflexivity|]. split; [vm_compute; reflexivity|]. apply R. reflexivity.
+    + split; [right; split; reflexivity|]. split; [reflexivity|]. split; [vm_compute; reflexivity|].
+      split; [apply R; reflexivity|]. split; [left; discriminate|]. constructor.
+  - vm_compute. repeat split; intros q Hq; repeat (destruct Hq as [Hq|Hq]; [subst q; reflexivity|]); destruct Hq.
+Qed.
+
+Example ex_n_unambiguous :
+  unambiguous ex_dn (PS [122]) ex_nitems ([] ++ var_lines ex_dn (PS [122]) ex_nitems ++ []).
+Proof.
+  split.
+  - intros k x Hin. vm_compute in Hin.
+    repeat (destruct Hin as [Hin|Hin]; [inversion Hin; subst k x; vm_compute; reflexivity|]). destruct Hin.
+  - intros n chans Hin. unfold ex_nitems in Hin. destruct Hin as [Hin|[Hin|[]]]; discriminate.
+Qed.
+
+Example ex_n_theorem :
+  load_var ex_dn ([] ++ var_lines ex_dn (PS [122]) ex_nitems ++ []) = Ok (var_state (PS [122]) ex_nitems) /\
+  save_var ex_dn (var_state (PS [122]) ex_nitems) = var_lines ex_dn (PS [122]) ex_nitems.
+Proof.
+  apply load_save_var; [exact ex_nitems_ok| | |exact ex_n_unambiguous]; intros k [].
 Qed.
